@@ -6,6 +6,8 @@ package main
 // inputs; they never decide a property.
 
 import (
+	"strconv"
+	"regexp"
 	"context"
 	"encoding/json"
 	"errors"
@@ -270,7 +272,7 @@ func init() {
 					}
 					for _, it := range append(c.items, c.first) {
 						if f, ok := it.(float64); ok && (math.IsNaN(f) || math.IsInf(f, 0)) {
-							if strings.Contains(in.text, ".decimal(") && o.isKnown("D17c") {
+							if decimalScaleBeyond308(in.text) && o.isKnown("D17c") {
 								continue
 							}
 							if docHasNonFinite(in.doc) || docHasNonFinite(any(in.vars)) {
@@ -514,6 +516,19 @@ func docHasNonFinite(v any) bool {
 			if docHasNonFinite(x) {
 				return true
 			}
+		}
+	}
+	return false
+}
+
+var decimalScaleRE = regexp.MustCompile(`\.decimal\(\s*[-+]?[0-9_]+\s*,\s*([-+]?)([0-9_]+)\s*\)`)
+
+// decimalScaleBeyond308 reports whether the text has a .decimal(p, s) whose scale is outside
+// [-308, 308] — the recorded finding D17c (math.Pow10 gives 0 or +Inf there and a NaN results).
+func decimalScaleBeyond308(text string) bool {
+	for _, m := range decimalScaleRE.FindAllStringSubmatch(text, -1) {
+		if n, err := strconv.Atoi(strings.ReplaceAll(m[2], "_", "")); err != nil || n > 308 {
+			return true
 		}
 	}
 	return false
